@@ -207,6 +207,11 @@ func buildWorld(u *Universe) *World {
 	return w
 }
 
+// StateAt opens a new StateDB at a root committed into this world's database
+func (w *World) StateAt(root common.Hash, trieSize *big.Int) (*state.StateDB, error) {
+	return state.New(root, common.Hash{}, new(big.Int).Set(trieSize), w.DB, w.EtxDB, nil, loc, log.Global)
+}
+
 func (w *World) NewState() *state.StateDB {
 	s, err := state.New(w.Root, common.Hash{}, new(big.Int).Set(w.TrieSize), w.DB, w.EtxDB, nil, loc, log.Global)
 	must(err)
